@@ -62,10 +62,14 @@ impl Value {
     /// Convert Value to FFI-safe FfiValue by expanding Symbols to Strings.
     ///
     /// Returns Err if the Value contains types that cannot cross FFI boundaries
-    /// (Closures, ExternalFn, Fixpoint, Store, ConstructorFn).
+    /// (Closures, ExternalFn, Fixpoint, Store, ConstructorFn, ErrorV).
     pub fn to_ffi_value(&self) -> Result<FfiValue, String> {
         match self {
-            Value::ErrorV(_) => Ok(FfiValue::ErrorV),
+            // An error value cannot be represented on the other side (it would be decoded
+            // as Unit): refuse it like the other values that cannot cross the boundary.
+            Value::ErrorV(_) => {
+                Err("Error values cannot be serialized across FFI boundaries".to_string())
+            }
             Value::Unit => Ok(FfiValue::Unit),
             Value::Number(n) => Ok(FfiValue::Number(*n)),
             Value::String(sym) => Ok(FfiValue::String(sym.as_str().to_string())),
